@@ -221,7 +221,9 @@ class Constant(Program):
         return (
             isinstance(other, Constant)
             and self.type == other.type
+            and self._has_value == other._has_value
             and self.value == other.value
+            and str(self.value) == str(other.value)
         )
 
     def __pickle__(o: Program) -> Tuple:  # type: ignore[override]
